@@ -70,7 +70,9 @@ namespace {
           op["v"] = J(v++);
           break;
         case 3:
-          op["k"] = J("global");
+          // a new global, or (host API) set_global: an existing global is REPLACED by a new object - unlike an
+          // assignment to it (known finding C15-K2) this must not reach into snapshots taken earlier
+          op["k"] = J(plan.chance(350) ? "set_global" : "global");
           op["g"] = J(int(plan.below(N_GLOB)));
           op["v"] = J(v++);
           break;
@@ -461,6 +463,14 @@ namespace {
                   bad(oi, "definition-rejected", out);
                 }
                 model.globs[g] = num("v");
+              }
+            } else if (k == "set_global") {
+              const int g = int(num("g")) % N_GLOB;
+              try {
+                e.set_global(chaiscript::var(int(num("v"))), "g" + std::to_string(g));
+                model.globs[g] = num("v");
+              } catch (...) {
+                bad(oi, "definition-rejected", "set_global threw " + describe_current_exception(&e));
               }
             } else if (k == "global_assign") {
               // never generated (known finding C15-K2): an existing global gets a new value after a snapshot was taken
